@@ -675,6 +675,22 @@ pub(crate) async fn fashare(
             bi[r] ^= dm_k[k][r][0] != 0;
         }
         di_bi[r] = if bi[r] { d1[r] } else { d0[r] };
+        // Before opening d_bi, check that the MACs the other parties reported under our key are
+        // consistent with the bits they claim. Otherwise a party lying about its bit makes us
+        // open d0 instead of d1 (or vice versa) and learns our delta from its real MAC.
+        let mut xor_macs_own_key = 0;
+        for k in (0..n).filter(|k| *k != i) {
+            let start = if i > k { 1 + (i - 1) * 16 } else { 1 + i * 16 };
+            let mac = dm_k[k][r]
+                .get(start..start + 16)
+                .and_then(|mac| mac.try_into().ok())
+                .map(u128::from_be_bytes)
+                .ok_or(Error::ConversionErr)?;
+            xor_macs_own_key ^= mac;
+        }
+        if xor_macs_own_key != di_bi[r] {
+            return Err(Error::AShareWrongMAC);
+        }
     }
 
     let di_bi_k = broadcast(channel, i, n, "fashare di_bi", &di_bi).await?;
